@@ -8,7 +8,11 @@ import common
 r = common.regen()
 print('py2coq: %d definitions, rejected: %s' % (len(r['sigs']), r['errors']))
 common.ensure_makefile()
-srcs = [s[:-2] + '.vo' for s in common.coq_sources()]
+import json, os
+claimed = [c['property_id'] for c in json.load(open('/verif/MANIFEST.json'))['checks']]
+srcs = ['Gen/Prims.vo', 'Gen/Seq.vo', 'Model/Trace.vo'] + ['Properties/%s.vo' % p for p in claimed if os.path.exists('/verif/coq/Properties/%s.v' % p)]
+extra = '/verif/coq/setup_targets.txt'          # further .vo targets (models imported only by case files)
+if os.path.exists(extra): srcs += [l.strip() for l in open(extra) if l.strip() and not l.startswith('#')]
 b = common.build(srcs, timeout=3000)
 print('coq build ok' if b['ok'] else 'coq build FAILED: %s' % b['msg'])
 sys.exit(0 if b['ok'] else 1)
